@@ -260,7 +260,7 @@ def run(tier, seed, replay=None):
     for s, g, o in zip(scripts, lines[1:], olines[1:]):
         evals += 1
         for t in s.split()[1:]:
-            k = t if t[0] == "D" or t in "XTtFGQq" else t[0]
+            k = t if t[0] in "DQ" or t in "XTtFGq" else t[0]
             dist[k] = dist.get(k, 0) + 1
         if nontrivial(s):
             nontriv.add(s)
